@@ -79,6 +79,7 @@ class KaniJob:
         self.appends = []        # (relfile, text)
         self.attr_inserts = []   # (relfile, target, trait, fn, [attr lines])
         self.macro_appends = []  # (relfile, macro_name, text)  inserted before the closing brace of the arm body
+        self.macro_attr_inserts = []
         self.harnesses = []
         self.extra_flags = []
         self.harness_timeout = harness_timeout or max(60, timeout - 120)
@@ -105,6 +106,11 @@ class KaniJob:
     def contract(self, relfile, target, trait, fn, attrs):
         self.attr_inserts.append((relfile, target, trait, fn, attrs))
 
+    def contract_in_macro(self, relfile, macro, substs, target, trait, fn, attrs):
+        """Contract attributes on a fn that lives inside a macro_rules body (line taken from the instantiated AST,
+        whose spans are those of the original file)."""
+        self.macro_attr_inserts.append((relfile, macro, substs, target, trait, fn, attrs))
+
     def add(self, *hs):
         self.harnesses.extend(hs)
 
@@ -114,6 +120,13 @@ class KaniJob:
         for (rel, target, trait, fn, attrs) in self.attr_inserts:
             ast = rsx_parse(os.path.join(root, rel))
             f = find_fn(ast, target, trait, fn)
+            by_file.setdefault(rel, []).append((f["first_ln"], attrs))
+        for (rel, macro, substs, target, trait, fn, attrs) in self.macro_attr_inserts:
+            p = subprocess.run([RSX, "expand", os.path.join(root, rel), macro] + ["%s=%s" % kv for kv in substs.items()],
+                               stdout=subprocess.PIPE, stderr=subprocess.PIPE, text=True)
+            if p.returncode != 0:
+                raise Undecided("rsx expand failed for %s!: %s" % (macro, p.stderr.strip()))
+            f = find_fn(json.loads(p.stdout), target, trait, fn)
             by_file.setdefault(rel, []).append((f["first_ln"], attrs))
         for rel, ins in by_file.items():
             p = os.path.join(root, rel)
